@@ -64,7 +64,7 @@ fn run(input: RunInput) -> ScenFuture {
         let ct_ms = w.param("connect_timeout_ms", 500, 3_000) as u64;
         let cap = w.param("inflight_cap", 1, 3) as usize;
         let n_targets = w.param("targets", 2, 4) as usize;
-        let n_ops = w.param("ops", 1, 40) as usize;
+        let n_ops = w.param("ops", 1, if w.tier == Tier::Quick { 40 } else { 100 }) as usize;
         let period = (interval_ms + jitter_ms) * MS;
         let mut cfg = base_config(30_000, Some(5_000));
         cfg.connectivity_check_interval_ms = Some(interval_ms);
